@@ -232,11 +232,12 @@ def run(scn, fork_call):
             # a branching recursive schema over a deep instance is exponential: the run is inconclusive, not broken
             return {"violations": [], "nontrivial": False, "stats": {"deep_instance_run_too_long": 1},
                     "steps": 0, "log_digest": digest(["too-long"]), "states": [], "sched": None}
-        if deep and "status 6" in str(e):
+        if deep and any(("status %d;" % c) in str(e) for c in (6, 134, 11, 139, 7, 135)):
             # "Fatal Python error: Cannot recover from stack overflow": the interpreter itself gave up while a
             # RecursionError was being handled (it aborts when handlers recurse 50 frames further).  That is the
             # stack-exhaustion fault killing the whole process, not an observation about the property and not a
-            # fault of the harness: the run is inconclusive and counted as such.
+            # fault of the harness: the run is inconclusive and counted as such.  (SIGSEGV / SIGBUS - status 11 / 7 -
+            # is the same event one level further down: the C stack itself ran out; seen once, on a loaded machine.)
             return {"violations": [], "nontrivial": False, "stats": {"interpreter_aborted_on_stack_overflow": 1},
                     "steps": 0, "log_digest": digest(["aborted"]), "states": [], "sched": None}
         raise
